@@ -1,5 +1,7 @@
-"""C20 - AutoQKeras: forgiving-factor bonus and the size model (engine B).  The hyper-model clauses are NOT covered:
-qkeras.autoqkeras cannot be imported under the pinned environment (keras-tuner needs tensorflow.keras.layers.experimental)."""
+"""C20 - AutoQKeras: forgiving-factor bonus, the size model and the hyper-model's search space (engine B).
+keras-tuner cannot be imported under the pinned environment (it needs tensorflow.keras.layers.experimental): the names
+qkeras.autoqkeras_internal imports from it are supplied as an environment stub and the tuner's `hp` object is the
+nondeterministic stub of the search (any element of the offered list)."""
 import importlib
 import os
 import sys
@@ -13,18 +15,364 @@ from ..pysym import SymInt, SymReal, SymBool, lift
 PROP = "C20"
 
 
+def _ensure_tuner():
+  """keras_tuner cannot be imported under the pinned environment: environment stub with the four names qkeras imports"""
+  try:
+    import keras_tuner  # noqa: F401  pylint: disable=unused-import
+    return False
+  except Exception:  # pylint: disable=broad-except
+    for k in [k for k in sys.modules if k == "keras_tuner" or k.startswith("keras_tuner.")]:
+      del sys.modules[k]
+    kt = types.ModuleType("keras_tuner")
+
+    class HyperModel(object):
+      def __init__(self, *a, **k):
+        pass
+    kt.HyperModel = HyperModel
+    for n in ("BayesianOptimization", "Hyperband", "RandomSearch"):
+      setattr(kt, n, type(n, (object,), {}))
+    kt.__vf_stub__ = True
+    sys.modules["keras_tuner"] = kt
+    return True
+
+
 def load_modules():
-  """import forgiving_factor / forgiving_bits without executing the qkeras.autoqkeras package __init__ (recorded cut)"""
-  import qkeras
-  root = os.path.join(os.path.dirname(qkeras.__file__), "autoqkeras")
-  for name, path in (("qkeras.autoqkeras", root), ("qkeras.autoqkeras.forgiving_metrics", os.path.join(root, "forgiving_metrics"))):
-    if name not in sys.modules:
-      m = types.ModuleType(name)
-      m.__path__ = [path]
-      sys.modules[name] = m
+  """forgiving_factor / forgiving_bits modules (the real qkeras.autoqkeras package, with keras_tuner stubbed if it cannot be imported)"""
+  _ensure_tuner()
   ff = importlib.import_module("qkeras.autoqkeras.forgiving_metrics.forgiving_factor")
   fb = importlib.import_module("qkeras.autoqkeras.forgiving_metrics.forgiving_bits")
   return ff, fb
+
+
+def load_hypermodel():
+  load_modules()
+  kt = sys.modules.get("keras_tuner")
+  return importlib.import_module("qkeras.autoqkeras.autoqkeras_internal"), bool(getattr(kt, "__vf_stub__", False))
+
+
+class ChoiceExhausted(Exception):
+  pass
+
+
+class SymHP(object):
+  """the tuner as a nondeterministic stub: Choice returns *any* element of the offered list (one path per element)"""
+
+  def __init__(self):
+    self.log = []
+    self.n = 0
+
+  def Choice(self, name, values, **k):
+    values = list(values)
+    if not values:
+      raise ChoiceExhausted(name)
+    self.n += 1
+    j = z3.Int("choice_%d" % self.n)
+    pysym.fact(z3.And(j >= 0, j < len(values)))
+    for idx in range(len(values) - 1):
+      if SymBool(j == idx):
+        self.log.append((name, values[idx], values))
+        return values[idx]
+    self.log.append((name, values[-1], values))
+    return values[-1]
+
+  def Fixed(self, name, value, **k):
+    self.log.append((name, value, [value]))
+    return value
+
+
+def search_part(run):
+  """AutoQKHyperModel._get_quantizer on a symbolic quantization configuration and symbolic limits"""
+  aq, stubbed = load_hypermodel()
+  run.aux["keras_tuner_stubbed"] = stubbed
+  S = SymInt
+  kb = z3.Ints("kbits0 kbits1 kbits2")
+  bb = z3.Ints("bbits0 bbits1")
+  ab = z3.Ints("abits0 abits1 abits2")
+  lk, lb, la, pk = z3.Ints("limit_kernel limit_bias limit_activation limit_pattern_kernel")
+  allv = list(kb) + list(bb) + list(ab) + [lk, lb, la, pk]
+  base = [z3.And(v >= 1, v <= 32) for v in allv]
+
+  def hyper():
+    hm = aq.AutoQKHyperModel.__new__(aq.AutoQKHyperModel)
+    hm.quantization_config = {
+        "kernel": {"k0": S(kb[0]), "k1": S(kb[1]), "k2": S(kb[2])}, "bias": {"b0": S(bb[0]), "b1": S(bb[1])},
+        "activation": {"a0": S(ab[0]), "a1": S(ab[1]), "a2": S(ab[2])}, "linear": {"l0": S(kb[0])},
+        "pointwise_kernel": {"k0": S(kb[0]), "k1": S(kb[1])}, "recurrent_kernel": {"k0": S(kb[0])}, "recurrent_activation": {"a0": S(ab[0])}}
+    hm.limit = {"Dense": [S(lk), S(lb), S(la)], "Conv2D": [["k0", "k2"], S(lb), S(la)], "^blk_.*": [S(pk), S(lb), S(la)]}
+    hm.groups = {}
+    return hm
+  cfgbits = dict(k0=kb[0], k1=kb[1], k2=kb[2], b0=bb[0], b1=bb[1], a0=ab[0], a1=ab[1], a2=ab[2])
+  cases = [
+      ("dense_kernel", "d1_kernel", "d1", "Dense", lk, None), ("dense_bias", "d1_bias", "d1", "Dense", lb, None), ("dense_activation", "d1_activation", "d1", "Dense", la, None),
+      ("conv_kernel_list", "c1_kernel", "c1", "Conv2D", None, ["k0", "k2"]), ("pattern_kernel", "blk_1_kernel", "blk_1", "Conv2D", pk, None),
+      ("outside", "x_kernel", "x", "DepthwiseConv2D", None, None),
+  ]
+  for cname, head, lname, lclass, limit, allowed in cases:
+    def fn(head=head, lname=lname, lclass=lclass):
+      hm = hyper()
+      hp = SymHP()
+      try:
+        res = hm._get_quantizer(hp, head, lname, lclass)
+      except ChoiceExhausted:
+        return "exhausted", None, hp.log
+      return "ok", res, hp.log
+    with pysym.shadow(aq):
+      paths, limits = pysym.explore(fn, base=base, max_paths=512)
+    for pc, why in limits:
+      run.inconclusive_("path limit in _get_quantizer(%s): %s" % (cname, why))
+    for pi, (pc, (kind, res, log), facts) in enumerate(paths):
+      if kind == "exhausted":
+        # nothing fits the limit: the tuner is offered an empty list (it rejects it); no quantizer is chosen on this path
+        bad = z3.BoolVal(False)
+      elif cname == "outside":
+        bad = z3.BoolVal(not (res[0] is None and res[1] == -1))
+      else:
+        qn, bits = res
+        ok_name = qn in cfgbits
+        if not ok_name:
+          bad = z3.BoolVal(True)
+        else:
+          conds = [lift(bits) != cfgbits[qn]]
+          if limit is not None:
+            conds.append(cfgbits[qn] > limit)
+          if allowed is not None:
+            conds.append(z3.BoolVal(qn not in allowed))
+          bad = z3.Or(*conds)
+      v, mdl = harness.z3_query(run, "search_%s_p%d" % (cname, pi), list(pc), [bad], dict(clause="search_space", case=cname))
+      if mdl is not None:
+        ok, detail = replay_search(cname, mdl)
+        if ok:
+          run.violation(dict(clause="search_space", case=cname), detail, dict(clause="search_space", case=cname, model=mdl))
+        else:
+          run.inconclusive_("search-space counterexample (%s) does not reproduce on the real code: %s" % (cname, str(detail)[:300]))
+    run.configs.append("search:%s (%d paths)" % (cname, len(paths)))
+  # layers grouped by a pattern share one choice: the second layer matching the pattern gets the first one's quantizer
+  def grouped():
+    hm = hyper()
+    hp = SymHP()
+    try:
+      r1 = hm._get_quantizer(hp, "blk_1_kernel", "blk_1", "Conv2D")
+      n1 = hp.n
+      r2 = hm._get_quantizer(hp, "blk_2_kernel", "blk_2", "Conv2D")
+    except ChoiceExhausted:
+      return None
+    return r1, r2, n1, hp.n
+  with pysym.shadow(aq):
+    paths, limits = pysym.explore(grouped, base=base, max_paths=512)
+  for pc, why in limits:
+    run.inconclusive_("path limit in the grouping case: %s" % why)
+  for pi, (pc, res, facts) in enumerate(paths):
+    if res is None:
+      continue
+    r1, r2, n1, n2 = res
+    bad = z3.Or(z3.BoolVal(r1[0] != r2[0]), lift(r1[1]) != lift(r2[1]), z3.BoolVal(n2 != n1))
+    v, mdl = harness.z3_query(run, "search_group_p%d" % pi, list(pc), [bad], dict(clause="search_space", case="pattern_group"))
+    if mdl is not None:
+      ok, detail = replay_search("pattern_group", mdl)
+      if ok:
+        run.violation(dict(clause="search_space", case="pattern_group"), detail, dict(clause="search_space", case="pattern_group", model=mdl))
+      else:
+        run.inconclusive_("search-space counterexample (pattern_group) does not reproduce on the real code: %s" % (str(detail)[:300],))
+  run.configs.append("search:pattern_group (%d paths)" % len(paths))
+
+
+SEARCH_CASES = {
+    "dense_kernel": ("d1_kernel", "d1", "Dense", "limit_kernel", None), "dense_bias": ("d1_bias", "d1", "Dense", "limit_bias", None),
+    "dense_activation": ("d1_activation", "d1", "Dense", "limit_activation", None), "conv_kernel_list": ("c1_kernel", "c1", "Conv2D", None, ["k0", "k2"]),
+    "pattern_kernel": ("blk_1_kernel", "blk_1", "Conv2D", "limit_pattern_kernel", None), "outside": ("x_kernel", "x", "DepthwiseConv2D", None, None),
+}
+
+
+def replay_search(cname, mdl):
+  """the solver's bit widths, limits and tuner choices on the real _get_quantizer, with plain Python ints"""
+  aq, _ = load_hypermodel()
+  g = lambda k, d=1: int(mdl.get(k, d))
+  kb = [g("kbits%d" % i) for i in range(3)]
+  bb = [g("bbits%d" % i) for i in range(2)]
+  ab = [g("abits%d" % i) for i in range(3)]
+  lim = dict(limit_kernel=g("limit_kernel"), limit_bias=g("limit_bias"), limit_activation=g("limit_activation"), limit_pattern_kernel=g("limit_pattern_kernel"))
+  cfg = {"kernel": {"k0": kb[0], "k1": kb[1], "k2": kb[2]}, "bias": {"b0": bb[0], "b1": bb[1]}, "activation": {"a0": ab[0], "a1": ab[1], "a2": ab[2]},
+         "linear": {"l0": kb[0]}, "pointwise_kernel": {"k0": kb[0], "k1": kb[1]}, "recurrent_kernel": {"k0": kb[0]}, "recurrent_activation": {"a0": ab[0]}}
+  hm = aq.AutoQKHyperModel.__new__(aq.AutoQKHyperModel)
+  hm.quantization_config = cfg
+  hm.limit = {"Dense": [lim["limit_kernel"], lim["limit_bias"], lim["limit_activation"]], "Conv2D": [["k0", "k2"], lim["limit_bias"], lim["limit_activation"]],
+              "^blk_.*": [lim["limit_pattern_kernel"], lim["limit_bias"], lim["limit_activation"]]}
+  hm.groups = {}
+  hp = ScriptHP([g("choice_%d" % i, 0) for i in range(1, 5)])
+  allbits = dict(k0=kb[0], k1=kb[1], k2=kb[2], b0=bb[0], b1=bb[1], a0=ab[0], a1=ab[1], a2=ab[2])
+  try:
+    if cname == "pattern_group":
+      r1 = hm._get_quantizer(hp, "blk_1_kernel", "blk_1", "Conv2D")
+      n1 = len(hp.points)
+      r2 = hm._get_quantizer(hp, "blk_2_kernel", "blk_2", "Conv2D")
+      return bool(r1 != r2 or len(hp.points) != n1), dict(first=str(r1), second=str(r2), tuner_variables=len(hp.points), config=cfg, limit=lim)
+    head, lname, lclass, lkey, allowed = SEARCH_CASES[cname]
+    res = hm._get_quantizer(hp, head, lname, lclass)
+  except IndexError as e:
+    return False, dict(note="empty choice list: %r" % (e,))
+  detail = dict(result=str(res), config=cfg, limit=lim)
+  if cname == "outside":
+    return not (res[0] is None and res[1] == -1), detail
+  qn, bits = res
+  bad = qn not in allbits or bits != allbits[qn] or (lkey is not None and allbits[qn] > lim[lkey]) or (allowed is not None and qn not in allowed)
+  return bool(bad), detail
+
+
+class ScriptHP(object):
+  """concrete tuner stub following a script of choice indexes; records the choice points met (for exhaustive enumeration)"""
+
+  def __init__(self, script):
+    self.script, self.points = list(script), []
+
+  def Choice(self, name, values, **k):
+    values = list(values)
+    i = len(self.points)
+    idx = self.script[i] if i < len(self.script) else 0
+    self.points.append((name, values))
+    return values[idx]
+
+  def Fixed(self, name, value, **k):
+    return value
+
+  def Float(self, name, lo, hi, **k):
+    return lo
+
+
+QCFG = {
+    "kernel": {"binary": 1, "quantized_bits(2,1,1,alpha=1.0)": 2, "quantized_bits(4,0,1)": 4, "quantized_bits(8,0,1)": 8},
+    "bias": {"quantized_bits(4,0,1)": 4, "quantized_bits(8,3,1)": 8},
+    "activation": {"quantized_relu(3,1)": 3, "quantized_relu(4,2)": 4, "quantized_relu(8,4)": 8},
+    "linear": {"quantized_bits(8,0,1)": 8},
+}
+
+
+def trials_part(run):
+  """auxiliary, exhaustive within its bound: every hyper-parameter assignment of four small search spaces is run through the
+  real AutoQKHyperModel.quantize_model and the trial model is inspected"""
+  import copy
+  import tensorflow.keras as keras
+  aq, _ = load_hypermodel()
+  ff, fb = load_modules()
+  from qkeras.autoqkeras.forgiving_metrics import forgiving_factor
+
+  def ref_model():
+    i = keras.Input((4,))
+    y = keras.layers.Dense(3, name="d1")(i)
+    y = keras.layers.Activation("relu", name="a1")(y)
+    y = keras.layers.Dense(2, name="d2")(y)
+    y = keras.layers.Activation("softmax", name="sm")(y)
+    return keras.Model(i, y)
+  spaces = [
+      ("class_limits", {"Dense": [4, 4, 4], "Activation": [4]}, None),
+      ("activation_outside", {"Dense": [2, 8, 8]}, None),
+      ("layer_indexes", {"Dense": [4, 4, 4], "Activation": [4]}, [1, 2]),
+      ("pattern_group", {"^d.*": [4, 8, 8], "Dense": [8, 8, 8], "Activation": [8]}, None),
+  ]
+  total = 0
+  for sname, limit, idxs in spaces:
+    model = ref_model()
+    target = forgiving_factor["bits"](8, 8, 2.0, stress=1.0, input_bits=8, output_bits=8, ref_bits=8, config={"default": ["parameters", "activations"]})
+    try:
+      hm = aq.AutoQKHyperModel(model, ["acc"], target=target, limit=copy.deepcopy(limit), tune_filters="none", tune_filters_exceptions="",
+                               layer_indexes=idxs, quantization_config=copy.deepcopy(QCFG))
+    except Exception as e:  # pylint: disable=broad-except
+      run.inconclusive_("AutoQKHyperModel cannot be constructed for %s: %r" % (sname, e))
+      continue
+    script = []
+    ntr = 0
+    while True:
+      hp = ScriptHP(script)
+      hm.groups = {}
+      try:
+        qm, _ = hm.quantize_model(hp)
+      except Exception as e:  # pylint: disable=broad-except
+        run.violation(dict(clause="trial_raises", space=sname), dict(script=script, error=repr(e)[:300]), dict(clause="trial", space=sname, script=list(script)))
+        break
+      ntr += 1
+      why = inspect_trial(model, qm, limit, idxs, hp.points, script, sname)
+      run.concrete_checks += 1
+      if why:
+        run.violation(dict(clause="trial_model", space=sname, what=why[0]), dict(script=list(script), detail=why[1]), dict(clause="trial", space=sname, script=list(script)))
+        break
+      # next assignment (odometer over the choice points actually met)
+      full = [(script[i] if i < len(script) else 0) for i in range(len(hp.points))]
+      k = len(full) - 1
+      while k >= 0 and full[k] + 1 >= len(hp.points[k][1]):
+        k -= 1
+      if k < 0 or ntr > 600:
+        break
+      script = full[:k] + [full[k] + 1]
+    total += ntr
+    run.configs.append("trials:%s (%d assignments)" % (sname, ntr))
+  run.aux["trial_models_enumerated"] = total
+
+
+def _bits_of(role, qstr):
+  return QCFG[role].get(qstr)
+
+
+def inspect_trial(model, qm, limit, idxs, points, script, sname):
+  """None or (what, detail)"""
+  import re
+  src, dst = model.layers, qm.layers
+  if [l.name for l in src] != [l.name for l in dst]:
+    return "architecture", dict(before=[l.name for l in src], after=[l.name for l in dst])
+  for i, (l, q) in enumerate(zip(src, dst)):
+    if tuple(l.output.shape) != tuple(q.output.shape):
+      return "architecture", dict(layer=l.name, shapes=[str(l.output.shape), str(q.output.shape)])
+    cls, qcls = type(l).__name__, type(q).__name__
+    if cls == "InputLayer":
+      continue
+    pat = [p for p in limit if p not in ("Dense", "Activation") and re.match(p, l.name)]
+    key = pat[0] if pat else cls
+    selected = (idxs is None or i in idxs) and key in limit and not (cls == "Activation" and l.get_config().get("activation") == "softmax")
+    if not selected:
+      if qcls != cls:
+        return "unselected_layer_quantized", dict(layer=l.name, got=qcls)
+      continue
+    lim = limit[key]
+    if cls == "Dense":
+      if qcls != "QDense":
+        return "selected_layer_not_quantized", dict(layer=l.name, got=qcls)
+      ks, bs = q.get_quantizers()[:2]
+      for role, s, lm in (("kernel", ks, lim[0]), ("bias", bs, lim[1])):
+        got = [n for n in QCFG[role] if _same_kind(_mk(n), s)]
+        s = str(s)
+        if not got:
+          return "quantizer_not_from_configuration", dict(layer=l.name, role=role, quantizer=s)
+        if min(QCFG[role][n] for n in got) > lm:
+          return "quantizer_exceeds_limit", dict(layer=l.name, role=role, quantizer=s, limit=lm)
+    elif cls == "Activation":
+      if qcls != "QActivation":
+        return "selected_layer_not_quantized", dict(layer=l.name, got=qcls)
+      got = [n for n in QCFG["activation"] if _same_kind(_mk(n), q.quantizer)]
+      s = str(q.quantizer)
+      if not got:
+        return "quantizer_not_from_configuration", dict(layer=l.name, role="activation", quantizer=s)
+      if min(QCFG["activation"][n] for n in got) > lim[-1]:
+        return "quantizer_exceeds_limit", dict(layer=l.name, role="activation", quantizer=s, limit=lim[-1])
+  if sname == "pattern_group":
+    ks = [str(q.get_quantizers()[0]) for q in dst if type(q).__name__ == "QDense"]
+    if len(set(ks)) > 1:
+      return "pattern_group_not_shared", dict(kernel_quantizers=ks)
+  return None
+
+
+def _same_kind(a, b):
+  """same quantizer class and the same bit-width / integer parameters (layers may fill in a default alpha)"""
+  if b is None or type(a).__name__ != type(b).__name__:
+    return False
+  return all(getattr(a, k, None) == getattr(b, k, None) for k in ("bits", "integer", "keep_negative", "negative_slope"))
+
+
+_MK = {}
+
+
+def _mk(s):
+  if s not in _MK:
+    from qkeras.quantizers import get_quantizer
+    _MK[s] = get_quantizer(s)
+  return _MK[s]
 
 
 class NpShim(object):
@@ -251,6 +599,10 @@ def replay(body):
     ok, detail = replay_delta(rep["model"])
     print("replay:", detail, "-> violation reproduced" if ok else "-> not reproduced")
     return ok
+  if rep.get("clause") == "search_space":
+    ok, detail = replay_search(rep["case"], rep["model"])
+    print("replay:", str(detail)[:600], "-> violation reproduced" if ok else "-> not reproduced")
+    return ok
   print("replay: re-run ./check C20")
   return True
 
@@ -260,18 +612,30 @@ def run(tier, seed):
   try:
     delta_part(r)
     size_part(r)
+    search_part(r)
+    trials_part(r)
   except Exception as e:  # pylint: disable=broad-except
     import traceback
     traceback.print_exc()
     r.inconclusive_("harness error: %r" % (e,))
-  r.functions = ["ForgivingFactor.delta", "ForgivingFactorBits._param_size", "ForgivingFactorBits._act_size", "ForgivingFactorBits.compute_model_size", "ForgivingFactorBits.get_reference", "ForgivingFactorBits.get_trial"]
+  r.functions = ["AutoQKHyperModel._get_quantizer", "AutoQKHyperModel.quantize_model (enumerated, auxiliary)", "ForgivingFactor.delta", "ForgivingFactorBits._param_size", "ForgivingFactorBits._act_size", "ForgivingFactorBits.compute_model_size", "ForgivingFactorBits.get_reference", "ForgivingFactorBits.get_trial"]
   r.bounds = ["delta: reference/trial sizes > 0, rate > 1, delta_p, delta_n > 0 - symbolic reals; two trial sizes for strict monotonicity",
               "size model: dense / conv / activation stand-in layers with symbolic dimensions (<= 64) and symbolic bit widths",
               "history: one target object, get_reference / get_trial / get_trial / get_reference on two models with independent symbolic bit widths",
-              "NOT covered: AutoQKHyperModel._get_quantizer / quantize_model (search-space clauses): qkeras.autoqkeras cannot be imported here"]
+              "search space: _get_quantizer on a configuration of 3 kernel / 2 bias / 3 activation quantizers with symbolic bit widths (1..32) and "
+              "symbolic limits for a class entry, a list-valued entry and a regex pattern entry; the tuner's Choice is any element of the offered "
+              "list; clauses: chosen bits <= limit (or name in the list), bits reported = configured bits, class outside the limits -> (None, -1), "
+              "layers matching one pattern share the choice without a new tuner variable",
+              "trial models (auxiliary enumeration, exhaustive within the bound): all assignments of four small search spaces on a "
+              "Dense/Activation/Dense/softmax reference through the real quantize_model; filter tuning, recurrent/separable layers and the "
+              "learning-rate option are not exercised"]
   r.assumptions = ["np.log: strictly increasing with log(1) = 0 (contract stub)", "layers are stand-ins named like the real classes",
-                   "the qkeras.autoqkeras package __init__ is not executed (it imports keras-tuner, which fails under the pinned environment)"]
+                   "the qkeras.autoqkeras package __init__ is not executed; keras_tuner (not importable under the pinned environment) is replaced by a stub "
+                   "module providing the four imported names; the tuner's hp object is a nondeterministic stub (symbolic part) or a script (enumeration)"]
   r.trusted = ["z3 (NRA/NIA)", "vf.pysym proxies and shims"]
-  return r.finish("ForgivingFactor.delta runs on symbolic sizes: zero at equal sizes, strictly decreasing in the trial size, positive below and "
+  return r.finish("AutoQKHyperModel._get_quantizer runs on a quantization configuration with symbolic bit widths, symbolic limits and a tuner that may "
+                  "return any element it is offered: on every path the chosen quantizer respects the limit (or the allowed list), unlisted classes "
+                  "stay unquantized and pattern groups share one choice; all assignments of four small search spaces are additionally run through "
+                  "the real quantize_model (auxiliary).  ForgivingFactor.delta runs on symbolic sizes: zero at equal sizes, strictly decreasing in the trial size, positive below and "
                   "negative above the reference.  The size model runs on stand-in layers with symbolic shapes and bit widths: parameters and "
                   "activations are elements x bits of the quantizer applied (reference width where none), reference = stress x size.")
